@@ -35,10 +35,14 @@ def showExtract : Extract → String
   | .err => "err"
   | .panic => "panic"
 
+/-- the harness' read-side codec rejects a payload starting with 0xEE (decode error, stream goes on) -/
+def showItem (b : Bytes) : String :=
+  if b.head? = some 0xEE then "decerr " else s!"item:{hexOf b} "
+
 def showOuts : List Out → String
   | [] => "fuel"
-  | [.item b] => s!"item:{hexOf b} fuel"
-  | .item b :: rest => s!"item:{hexOf b} " ++ showOuts rest
+  | [.item b] => showItem b ++ "fuel"
+  | .item b :: rest => showItem b ++ showOuts rest
   | .err :: _ => "err"
   | .done :: _ => "done"
   | .panic :: _ => "panic"
